@@ -242,6 +242,20 @@ def main(modname, argv=None):
             if ok:
                 reproduced = v
                 break
+            # the abstraction x^T -> fresh variable can give models whose base values do not exhibit the
+            # failure; the solver verdict says the identity is not valid, so look for a genuine point nearby
+            if hasattr(mod, "alt_models"):
+                for m2 in mod.alt_models(v, rnd):
+                    v2 = dict(v, model=m2)
+                    try:
+                        ok, info2 = mod.replay(v2)
+                    except BaseException:
+                        ok, info2 = False, "replay crashed"
+                    if ok:
+                        reproduced, info = v2, info2 + " [witness refined from the solver model]"
+                        break
+                if reproduced is not None:
+                    break
         if reproduced is None:
             not_reproduced.append((sig, info, vs[0]))
             continue
